@@ -144,16 +144,22 @@ def handle (j : Json) : Json :=
     let prog : M Res4 Unit := match op with
       | .setNode n c => if jbool (jget (jget j "args") "refused") then setNode n c true true else runOp op
       | _ => runOp op
-    let (out, ms) := run prog flt pre
+    -- cancelled caller: the model runs under the cancellation plan (context ends before / after the addressed step)
+    let cplan : Option (Addr × Bool) :=
+      if cancelled then some (⟨jstr (jget jc "kind"), jstr (jget jc "node"), jnat (jget jc "ord")⟩, jbool (jget jc "after")) else none
+    let (out, ms) := run prog flt pre cplan
     let names := (namesOf pre ++ namesOf post ++ pre.pnodes ++ post.pnodes ++
       (match op with | .addNode n _ => [n] | .removeNode n => [n] | _ => [])).eraseDups
-    let mtrace := sortStr (ms.tr.map (fun e => s!"{e.1}@{e.2.1}:{e.2.2}"))
+    -- under cancellation a step fails with a context error that nobody injected: compare (kind, node) only
+    let itrace := if cancelled then sortStr ((jarr (jget j "trace")).map (fun e => s!"{jstr (jget e "kind")}@{jstr (jget e "node")}")) else itrace
+    let mtrace := if cancelled then sortStr (ms.tr.map (fun e => s!"{e.1}@{e.2.1}"))
+                  else sortStr (ms.tr.map (fun e => s!"{e.1}@{e.2.1}:{e.2.2}"))
     let mret := match out with | .ok _ => "ok" | .fail => "fail"
     let diffs := stateDiff names ms.st post ++
       (if sortStr (ms.msgs.map msgKey) == sortStr (imsgs.map msgKey) then [] else ["msgs"]) ++
       (if mtrace == itrace then [] else ["trace"]) ++
       (if mret == iret then [] else ["ret"]) ++
-      (if ms.fired == fired then [] else ["fired"])
+      (if ms.fired == fired || cancelled then [] else ["fired"])
     -- specification on the implementation's snapshots
     let preOk := consistentB pre
     let failedAll := iret == "fail" || (!imsgs.isEmpty && imsgs.all (fun m => !m.ok))
@@ -217,9 +223,17 @@ def handle (j : Json) : Json :=
     -- a pre-state that already violates C10 (reached through a known finding) is outside the
     -- model's domain (the plugin may then refuse decrements): no correspondence claim, spec still evaluated
     let cls := if preOk then s!"{opName}:{outcome}:{fkind}" else s!"skip-pre-inconsistent:{opName}"
-    -- cancellation runs: specification only (the model has no notion of a cancelled caller)
-    let cls := if cancelled then s!"{opName}:cancelled:{outcome}" else cls
-    Json.mkObj [("id", id), ("agree", diffs.isEmpty || !preOk || cancelled),
+    -- cancellation runs: the model runs the same cancellation plan. Parts of ONE operation that the real code runs
+    -- concurrently (instances / nodes of a create's deployment phase, the node groups of a remove) see the ended
+    -- context at unrelated points of their own progress; for those runs only the specification is evaluated.
+    let ckind := jstr (jget jc "kind")
+    let condKinds := ["pluginAlloc", "walLog:create-processing", "storeCreateProcessing"]
+    let sequentialRun : Bool := match op with
+      | .create _ => condKinds.contains ckind || jnat (jget (jget j "args") "planned") ≤ 1
+      | .remove _ g => g.length ≤ 1
+      | _ => true
+    let cls := if cancelled then (if sequentialRun then s!"{opName}:cancelled:{outcome}" else s!"{opName}:cancelled-concurrent:{outcome}") else cls
+    Json.mkObj [("id", id), ("agree", diffs.isEmpty || !preOk || (cancelled && !sequentialRun)),
       ("model", Json.mkObj [("diff", Json.arr (diffs.map Json.str).toArray), ("ret", mret),
                             ("msgs", Json.arr ((sortStr (ms.msgs.map msgKey)).map Json.str).toArray),
                             ("trace", if mtrace == itrace then Json.null else Json.arr (mtrace.map Json.str).toArray)]),
